@@ -7,7 +7,7 @@ from props import routerC_lib as L
 ID = 'C11'
 COQ_MODEL = 'model.Router'
 COQ_CORR = 'corr_C11'
-N_QUICK = 230
+N_QUICK = 130
 N_THOROUGH = 1200
 THOROUGH_EXHAUSTIVE = False
 VM_CASES = 12
@@ -47,6 +47,10 @@ def _pat(rule):
     return re.sub(r'<[^>]*>|\{[^}]*\}|:\w*', '\r', rule[1:])
 
 
+ITER_PREFIXES = ['', 'a', 'a/', 'a/b', 'a/\r', 'p/', 'i/\r', 'm/', 'zz', 'ab', 'a/b/c/d/e']
+KEY_FORMS = ['set', 'dict', 'routekey', 'pattern', 'routekey_pattern']
+
+
 def _probe_set(rng=None, full=False):
     paths = PATHS if full or rng is None else rng.sample(PATHS, 7)
     cmds = []
@@ -54,11 +58,20 @@ def _probe_set(rng=None, full=False):
         cmds.append(dict(op='dispatch', path=p, verb='GET'))
         if full or (rng is not None and rng.random() < 0.25):
             cmds.append(dict(op='dispatch', path=p, verb='POST'))
+        if full or (rng is not None and rng.random() < 0.15):
+            cmds.append(dict(op='resolve_route', path=p))                    # resolve(path) -> Route
     for n in NAMES:
         cmds.append(dict(op='by_name', name=n))
     rules = RULES + list(ALT.values()) if full or rng is None else rng.sample(RULES, 4)
-    for r in rules:
-        cmds.append(dict(op='by_rule', rule=r))
+    for k, r in enumerate(rules):
+        form = KEY_FORMS[k % len(KEY_FORMS)] if full or rng is None else rng.choice(KEY_FORMS)
+        cmds.append(dict(op='by_rule', rule=r, form=form))                   # every form router[...] accepts
+    for r in (HOOKS if full or rng is None else rng.sample(HOOKS, 2)):
+        cmds.append(dict(op='get_hook', rule=r))
+    for r in (['/a', '/a/b', '/m/<x>'] if full or rng is None else rng.sample(RULES, 1)):
+        cmds.append(dict(op='call_route', rule=r, verb='GET'))               # Route.__call__
+    for sw in (ITER_PREFIXES if full or rng is None else rng.sample(ITER_PREFIXES, 2)):
+        cmds.append(dict(op='iter', startswith=sw, yield_hooks=bool(len(sw) % 2) if (full or rng is None) else rng.random() < 0.5))
     cmds.append(dict(op='listing'))
     return cmds
 
@@ -128,11 +141,13 @@ def _gen_ops(rng, n, admissible=True):
             if rule in ALT and rng.random() < 0.3:
                 rule = ALT[rule]
             ms = rng.choice([['GET'], ['GET'], ['POST'], ['GET', 'POST'], ['ANY'], ['get']])
-            ops.append(dict(op='add', rule=rule, methods=ms, h=rng.randrange(1, 9),
-                            name=rng.choice([None, None] + NAMES), overwrite=rng.random() < 0.25))
+            ops.append(L.vary_add(rng, dict(op='add', rule=rule, methods=ms, h=rng.randrange(1, 9),
+                                            name=rng.choice([None, None] + NAMES), overwrite=rng.random() < 0.25)))
         elif r < 0.55:
             added = [o['rule'] for o in ops if o['op'] == 'add']
-            ops.append(dict(op='remove', rule=rng.choice(added) if added and rng.random() < 0.5 else rng.choice(RULES)))
+            rule = rng.choice(added) if added and rng.random() < 0.5 else rng.choice(RULES)
+            # by rule text, or by the Route object found under that rule
+            ops.append(dict(op='remove' if rng.random() < 0.75 else 'remove_obj', rule=rule))
         elif r < 0.63:
             pre = rng.choice(PREFIXES)
             P = _pat(pre)[:-1]
@@ -145,21 +160,28 @@ def _gen_ops(rng, n, admissible=True):
             ops.append(dict(op='remove_name', name=rng.choice(NAMES)))
         elif r < 0.85:
             rule = rng.choice(HOOKS)
-            ops.append(dict(op='add_hook', rule=rule, h=50 + rng.randrange(6), partial=rng.random() < 0.25))
+            ops.append(L.vary_hook(rng, dict(op='add_hook', rule=rule, h=50 + rng.randrange(6), partial=rng.random() < 0.25)))
             hooks.add(_pat(rule))
         elif r < 0.94:
             rule = rng.choice(HOOKS)
             ops.append(dict(op='remove_hook', rule=rule))
             hooks.discard(_pat(rule))
-        else:
+        elif r < 0.97:
             ops.append(dict(op='remove_method', rule=rng.choice(RULES), methods=[rng.choice(['GET', 'POST', 'ANY'])]))
+        else:
+            ops.append(dict(op='route_method', rule=rng.choice(RULES), methods=rng.choice([['PUT'], 'get', ['GET', 'PUT']]),
+                            h=rng.randrange(1, 9), overwrite=rng.random() < 0.5))
     return ops
 
 
 def gen(rng, n):
     n_in = max(1, n // 15)
     for _ in range(n - n_in):
-        yield _with_probes(_gen_ops(rng, rng.choice([4, 6, 8, 10, 14, 20, 30])), rng)
+        c = _with_probes(_gen_ops(rng, rng.choice([4, 6, 8, 10, 14, 20, 30])), rng)
+        if rng.random() < 0.1:
+            # another application edited in between: nothing of it may show in this one
+            c['twin'] = [o for o in _gen_ops(rng, 8)] + [dict(op='dispatch', path='/a/b', verb='GET')]
+        yield c
     for _ in range(n_in):
         c = _with_probes(_gen_ops(rng, rng.choice([6, 10, 16]), admissible=False), rng)
         c['inadmissible_stream'] = True
@@ -191,6 +213,10 @@ def run_impl(case):
     return L.run_script(case)
 
 
+def project(obs, case):
+    return L.strip(obs)
+
+
 def encode(case):
     return L.encode(case)
 
@@ -199,7 +225,7 @@ def decode(out, case):
     return L.decode(out, case)
 
 
-MUTATING = ('add', 'remove', 'remove_name', 'add_hook', 'remove_hook', 'remove_method')
+MUTATING = ('add', 'remove', 'remove_name', 'add_hook', 'remove_hook', 'remove_method', 'remove_obj', 'route_method')
 
 
 def _fresh_from(a, ctx, hook_rule):
@@ -221,11 +247,15 @@ def _fresh_from(a, ctx, hook_rule):
     for pattern, route in src.routes.items():
         dst.add(route.rule, [], filler)
         for m, rm in route._methods.items():
+            if rm.params is None or m != m.upper():
+                # registered through the Route API directly (no names, no upper-casing)
+                dst.routes[pattern].set_method(m, rm.handler, rm.meta)
+                continue
             names = rm.params if rm.params else route.params
             rule = route.rule if list(names) == list(route.params) else text_for(pattern, route.filters, names)
             if rule is None:
                 return None, 'no rule text for %r with names %s' % (pattern, names)
-            dst.add(rule, [m], rm.handler, overwrite=True)
+            dst.add(rule, [m], rm.handler, meta=rm.meta, overwrite=True)
     for name, route in src.named_routes.items():
         if src.routes.get(route.pattern) is not route:
             return None, 'name %r points to a route (%s) that is not registered any more' % (name, route.rule)
@@ -284,6 +314,37 @@ def _expected_hooks(router, route, sp, path):
 
 
 def oracle(case, obs):
+    return L.traced(_oracle, case, obs)
+
+
+def _api_misuse(router):
+    """the documented failure modes of RadiRouter.__getitem__ / RouteKey / hook_installer"""
+    from ombott.router.radirouter import RouteKey
+    for bad, exc in (({'/a', '/b'}, TypeError), (5, TypeError), (['/a'], TypeError),
+                     ({'rule': '/a', 'pattern': 'a'}, TypeError)):
+        try:
+            router[bad]
+        except exc:
+            continue
+        except Exception as e:
+            return 'router[%r] raised %s, documented: %s' % (bad, type(e).__name__, exc.__name__)
+        return 'router[%r] did not raise' % (bad,)
+    try:
+        RouteKey('/a', pattern='a')
+        return 'RouteKey(rule, pattern) did not raise'
+    except TypeError:
+        pass
+    try:
+        router.hook_installer(None, lambda p: None, 2)
+        return 'hook_installer accepted hook type 2'
+    except ValueError:
+        pass
+    if router['no-such-name'] is not None:
+        return 'router[unknown name] is not None'
+    return None
+
+
+def _oracle(case, obs):
     if case.get('inadmissible_stream'):
         return None
     ctx = L.Ctx(case)
@@ -291,8 +352,13 @@ def oracle(case, obs):
         ctx.parse(r)
     a = L.App(ctx)
     probes = [p for p in _probe_set(full=True)
-              if not (p['op'] == 'dispatch' and p['verb'] == 'POST' and p['path'] not in ('/a/q', '/a', '/a/b/c'))]
+              if not (p['op'] == 'dispatch' and p['verb'] == 'POST' and p['path'] not in ('/a/q', '/a', '/a/b/c'))
+              and not (p['op'] == 'resolve_route' and p['path'] not in ('/a/q', '/i/5.json', '/m/zz', '/'))
+              and not (p['op'] == 'iter' and p.get('startswith') not in ('', 'a/', 'i/\r'))]
     hook_rule = {}       # hook pattern -> the rule text that installed it (its filters are the tree's)
+    bad = _api_misuse(a.app.router)
+    if bad:
+        return bad
     for c in case['cmds']:
         if c['op'] not in MUTATING:
             continue
@@ -380,6 +446,8 @@ def _star_rule_removed_by_name(case, what, m):
     return (any(c['op'] == 'add' and c['rule'].endswith('*') for c in case['cmds'])
             and any(c['op'] == 'remove_name' for c in case['cmds']))
 
+
+API_SURFACE = L.API_SURFACE          # audit round 4: see tools/props/routerC_lib.py
 
 PREDICATES = {'star_rule_removed_by_name': _star_rule_removed_by_name}
 
